@@ -1,5 +1,31 @@
-//! Conformance harness for property C13, see /verif/DESIGN.md.
+//! Conformance harness for property C13 (children started, awaited and
+//! reaped correctly under every schedule), see /verif/DESIGN.md section 6.
+//!
+//! `yv-c13 explore --catalogue C --depth N --max-dfs M --random R --threads T
+//!         --out-trace F --out-summary G`
+//!   For every script of the TLC-generated catalogue: run the REAL shell on
+//!   the simulated OS under the controllable scheduler, depth-first over the
+//!   first N choice points (at most M schedules), then R seeded random
+//!   schedules.  Every run is recorded as `reset`, `batch`*, `end` records
+//!   (validated by spec/Trace_Procs.tla) plus one summary line.
+//! `yv-c13 one --sid JSON --text T --prefix 0,1,.. --out F`
+//!   One run under a given schedule (replay of a violation).
+mod explore;
+
 fn main() {
-    eprintln!("yv-c13: not implemented yet");
-    std::process::exit(2);
+    let args: Vec<String> = std::env::args().collect();
+    if args.len() < 2 {
+        eprintln!("usage: yv-c13 <explore|one> ...");
+        std::process::exit(2);
+    }
+    let rest = &args[2..];
+    let code = match args[1].as_str() {
+        "explore" => explore::explore(rest),
+        "one" => explore::one(rest),
+        other => {
+            eprintln!("unknown subcommand {other}");
+            2
+        }
+    };
+    std::process::exit(code);
 }
